@@ -2,6 +2,7 @@ package main
 
 import (
 	"fmt"
+	"go/constant"
 	"go/token"
 	"go/types"
 
@@ -287,6 +288,19 @@ func (a *parserAnchors) enumPaths(start *ssa.BasicBlock, visit func(facts []path
 			return true
 		}
 		for i, s := range b.Succs {
+			if iff := blockIf(b); iff != nil {
+				// conditions that are calls of pure predicates of the package, or membership tests in a package-level
+				// token list, are expanded into the alternatives under which they hold
+				if alts := a.expandCond(iff.Cond, i == 0, b, 0); alts != nil {
+					for _, alt := range alts {
+						f2 := append(append([]pathFact(nil), facts...), alt...)
+						if !rec(s, f2, blocks, on) {
+							return false
+						}
+					}
+					continue
+				}
+			}
 			f2 := facts
 			if at, ok := a.edgeAtom(b, i); ok {
 				f2 = append(append([]pathFact(nil), facts...), pathFact{at, b})
@@ -298,6 +312,208 @@ func (a *parserAnchors) enumPaths(start *ssa.BasicBlock, visit func(facts []path
 		return true
 	}
 	return rec(start, nil, nil, map[*ssa.BasicBlock]bool{})
+}
+
+// enumPathsAll is enumPaths that also reports the paths that end at a back edge (back == true): one loop iteration
+// that goes round again.
+func (a *parserAnchors) enumPathsAll(start *ssa.BasicBlock, visit func(facts []pathFact, blocks []*ssa.BasicBlock, last *ssa.BasicBlock, back bool)) bool {
+	count := 0
+	const limit = 20000
+	var rec func(b *ssa.BasicBlock, facts []pathFact, blocks []*ssa.BasicBlock, on map[*ssa.BasicBlock]bool) bool
+	rec = func(b *ssa.BasicBlock, facts []pathFact, blocks []*ssa.BasicBlock, on map[*ssa.BasicBlock]bool) bool {
+		if on[b] {
+			count++
+			if count > limit {
+				return false
+			}
+			visit(facts, blocks, b, true)
+			return true
+		}
+		on[b] = true
+		defer delete(on, b)
+		blocks = append(blocks, b)
+		if len(b.Succs) == 0 {
+			count++
+			if count > limit {
+				return false
+			}
+			visit(facts, blocks, b, false)
+			return true
+		}
+		for i, s := range b.Succs {
+			if iff := blockIf(b); iff != nil {
+				if alts := a.expandCond(iff.Cond, i == 0, b, 0); alts != nil {
+					for _, alt := range alts {
+						f2 := append(append([]pathFact(nil), facts...), alt...)
+						if !rec(s, f2, blocks, on) {
+							return false
+						}
+					}
+					continue
+				}
+			}
+			f2 := facts
+			if at, ok := a.edgeAtom(b, i); ok {
+				f2 = append(append([]pathFact(nil), facts...), pathFact{at, b})
+			}
+			if !rec(s, f2, blocks, on) {
+				return false
+			}
+		}
+		return true
+	}
+	return rec(start, nil, nil, map[*ssa.BasicBlock]bool{})
+}
+
+// purePredicate: a function of package parser returning one bool that neither consumes tokens, records errors nor
+// stores anything (a named condition).
+func (a *parserAnchors) purePredicate(f *ssa.Function) bool {
+	if f == nil || f.Blocks == nil || f.Signature.Results().Len() != 1 {
+		return false
+	}
+	if b, ok := f.Signature.Results().At(0).Type().Underlying().(*types.Basic); !ok || b.Kind() != types.Bool {
+		return false
+	}
+	if a.nextTok == nil || f.Pkg != a.nextTok.Pkg {
+		return false
+	}
+	pure := true
+	allInstrs(f, func(_ *ssa.BasicBlock, _ int, in ssa.Instruction) {
+		switch x := in.(type) {
+		case *ssa.Store, *ssa.MapUpdate, *ssa.Send, *ssa.Go, *ssa.Defer, *ssa.Panic:
+			pure = false
+		case *ssa.Call:
+			cal := x.Call.StaticCallee()
+			if cal == nil {
+				if _, isB := x.Call.Value.(*ssa.Builtin); !isB {
+					pure = false
+				}
+				return
+			}
+			if cal.Pkg == f.Pkg && !a.purePredicate(cal) && !a.pureReader(cal) {
+				pure = false
+			}
+		}
+	})
+	return pure
+}
+
+// pureReader: a function of the package without stores and without calls other than to pure functions (level readers).
+func (a *parserAnchors) pureReader(f *ssa.Function) bool {
+	if f == nil || f.Blocks == nil {
+		return false
+	}
+	ok := true
+	allInstrs(f, func(_ *ssa.BasicBlock, _ int, in ssa.Instruction) {
+		switch x := in.(type) {
+		case *ssa.Store, *ssa.MapUpdate, *ssa.Send, *ssa.Go, *ssa.Defer, *ssa.Panic:
+			ok = false
+		case *ssa.Call:
+			if _, isB := x.Call.Value.(*ssa.Builtin); !isB {
+				ok = false
+			}
+		}
+	})
+	return ok
+}
+
+// expandCond returns the alternative fact lists under which cond evaluates to want, or nil when cond is an ordinary
+// atom (the caller then records the atom itself).
+func (a *parserAnchors) expandCond(cond ssa.Value, want bool, from *ssa.BasicBlock, depth int) [][]pathFact {
+	for {
+		if u, ok := cond.(*ssa.UnOp); ok && u.Op == token.NOT {
+			cond, want = u.X, !want
+			continue
+		}
+		break
+	}
+	call, ok := cond.(*ssa.Call)
+	if !ok || depth > 3 {
+		return nil
+	}
+	cal := call.Call.StaticCallee()
+	if cal == nil {
+		return nil
+	}
+	// slices.Contains(<package-level token list>, <peek or current token type>)
+	if extFuncIs(cal, "slices", "Contains") && len(call.Call.Args) == 2 {
+		el := globalSeqTable(call.Call.Args[0])
+		kind := atomKind(-1)
+		switch {
+		case tokenFieldLoad(call.Call.Args[1], a.peek, "Type"):
+			kind = atPeekType
+		case tokenFieldLoad(call.Call.Args[1], a.cur, "Type"):
+			kind = atCurType
+		}
+		if el == nil || kind < 0 {
+			return nil
+		}
+		var alts [][]pathFact
+		if want {
+			for _, e := range el {
+				k, _ := constant.Int64Val(e)
+				alts = append(alts, []pathFact{{atom{kind: kind, k: k}, from}})
+			}
+			return alts
+		}
+		var all []pathFact
+		for _, e := range el {
+			k, _ := constant.Int64Val(e)
+			all = append(all, pathFact{atom{kind: kind, neg: true, k: k}, from})
+		}
+		return [][]pathFact{all}
+	}
+	if !a.purePredicate(cal) {
+		return nil
+	}
+	var alts [][]pathFact
+	understood := true
+	complete := a.enumPathsBlocks(cal.Blocks[0], func(facts []pathFact, blocks []*ssa.BasicBlock, last *ssa.BasicBlock) {
+		ret, ok := last.Instrs[len(last.Instrs)-1].(*ssa.Return)
+		if !ok || len(ret.Results) != 1 {
+			understood = false
+			return
+		}
+		v := ret.Results[0]
+		if phi, ok := v.(*ssa.Phi); ok && phi.Block() == last && len(blocks) >= 2 {
+			prev := blocks[len(blocks)-2]
+			for i, p := range last.Preds {
+				if p == prev {
+					v = phi.Edges[i]
+				}
+			}
+		}
+		if k, ok := v.(*ssa.Const); ok && k.Value != nil && k.Value.Kind() == constant.Bool {
+			if constant.BoolVal(k.Value) == want {
+				alts = append(alts, append([]pathFact(nil), facts...))
+			}
+			return
+		}
+		// the result is itself a condition value
+		if sub := a.expandCond(v, want, last, depth+1); sub != nil {
+			for _, sa := range sub {
+				alts = append(alts, append(append([]pathFact(nil), facts...), sa...))
+			}
+			return
+		}
+		at := a.parseCond(v)
+		if !want {
+			at.neg = !at.neg
+		}
+		alts = append(alts, append(append([]pathFact(nil), facts...), pathFact{at, last}))
+	})
+	if !complete || !understood {
+		return nil
+	}
+	if alts == nil {
+		alts = [][]pathFact{} // never holds
+	}
+	return alts
+}
+
+// enumPathsBlocks is enumPaths for a callee (same enumeration; kept separate so that the recursion is explicit).
+func (a *parserAnchors) enumPathsBlocks(start *ssa.BasicBlock, visit func(facts []pathFact, blocks []*ssa.BasicBlock, last *ssa.BasicBlock)) bool {
+	return a.enumPaths(start, visit)
 }
 
 func callsIn(b *ssa.BasicBlock) []*ssa.Call {
